@@ -572,7 +572,7 @@ def run(r):
         tseen.add(v["key"])
         r.violation(v["key"], "two compilers on one thread: " + v["calls"][:600],
                     {"program": v["program"], "second_compiler_mode": v["mode"], "second_backend_calls": v["methods"], "detail": v["calls"], "cmd": "c20 twocomp"},
-                    theorem="C20_precache_crosses_backends_refuted")
+                    theorem="C20_precache_sound")
     r.coverage["two_compilers"] = {"kind": "search", "histories": len(two), "second_compiler_got_first_backends_value": sum(1 for x in two if x["differs"]),
                                    "by_second_mode": {m: sum(1 for x in two if x["differs"] and x["second_mode"] == m) for m in ("Lsp", "Normal")}}
     if two:
@@ -602,6 +602,17 @@ def run(r):
         if bad:
             r.violation(key, "regression: compiling %r in editor mode %s" % (src, "wrote to stderr" if between else "opened a descriptor or pre-evaluated a mutating operation"),
                         {"program": src, "result": g, "stderr": between[:400], "cmd": "c20 one Lsp '%s'" % src}, theorem="lsp_mode_readonly")
+    # repaired by 501199d: rejected code-macro snippets must not use up the macro recursion depth
+    rc, out, err = run_bin("c20", ["leak-demo", 25], seed=r.seed, timeout=120)
+    got = [x for x in json_lines(out) if x.get("k") == "leak-demo"]
+    if not got:
+        r.broken_obligation("regression-corpus", "c20 leak-demo failed", (out + err)[-1000:])
+    else:
+        g = got[0]
+        reg.append({"program": "25 x (C! <-^ \"(\" pop ; C!+ 1 2), then E! <- ^0 ^0 ; E!(+1) 1", "valid_macro_after": g["valid_macro_after"], "depth": g["depth"]})
+        if "Ok(Ok" not in g["valid_macro_after"] or g["depth"] != 0:
+            r.violation("session/state-not-restored:comptime_depth:leak-demo", "regression: after 25 rejected code-macro snippets on one compiler a valid macro use gives %s (comptime_depth %s)"
+                        % (g["valid_macro_after"], g["depth"]), {"result": g, "cmd": "c20 leak-demo 25"}, theorem="C20_snippet_restores_state")
     r.coverage["regression_corpus"] = reg
 
     # ---- supporting evidence: static containment of host I/O
